@@ -514,7 +514,7 @@ def EpisodeMatch (i j : Inst) : Prop :=
   j.env eScheduled = 0 ∧ j.env eNmneVar = 0
   ∧ j.env eConfig = i.env eConfig + (if i.env eScheduled ≠ 0 then i.env eEpisode + 1 else 0)
   ∧ j.env eNmneCfg = i.env eNmneCfg + (if i.env eNmneVar ≠ 0 then i.env eEpisode + 1 else 0)
-  ∧ j.env eIo = i.env eIo ∧ j.env eUsesRng = i.env eUsesRng
+  ∧ j.env eIo = i.env eIo ∧ j.env eUsesRng = i.env eUsesRng ∧ j.env eBuildRng = i.env eBuildRng
 
 /-- what a `step` of a lone instance depends on -/
 def StepRel (i j : Inst) (G G' : Store) : Prop :=
@@ -523,13 +523,13 @@ def StepRel (i j : Inst) (G G' : Store) : Prop :=
 theorem reset_episode_match (seed : Val) (i j : Inst) (G G' : Store) (hm : EpisodeMatch i j) (hG : G gImport = G' gImport) :
     (execProg seed resetProg i G).2.2 = (execProg seed resetProg j G').2.2
     ∧ StepRel (execProg seed resetProg i G).1 (execProg seed resetProg j G').1 (execProg seed resetProg i G).2.1 (execProg seed resetProg j G').2.1 := by
-  obtain ⟨h1, h2, h3, h4, h5, h6⟩ := hm
-  simp only [eScheduled, eNmneVar, eConfig, eNmneCfg, eIo, eUsesRng, eEpisode, gImport] at h1 h2 h3 h4 h5 h6 hG
+  obtain ⟨h1, h2, h3, h4, h5, h6, h7⟩ := hm
+  simp only [eScheduled, eNmneVar, eConfig, eNmneCfg, eIo, eUsesRng, eBuildRng, eEpisode, gImport] at h1 h2 h3 h4 h5 h6 h7 hG
   by_cases hs : i.env 5 = 0 <;> by_cases hv : i.env 6 = 0 <;>
     simp only [hs, hv, ne_eq, not_true_eq_false, not_false_eq_true, if_true, if_false] at h3 h4 <;>
     refine ⟨?_, ?_, ?_, ?_, ?_, ?_⟩ <;>
     simp [resetProg, buildGame, scenarioExpr, nmneExpr, execProg, execCmd, eval, upd, eScheduled, eNmneVar, eConfig, eNmneCfg, eIo,
-      eUsesRng, eEpisode, gImport, gRng, gNmne, gCapture, gSimOutput, gPcapLoggers, lState, lStep, h1, h2, h3, h4, h5, h6, hG, hs, hv] <;>
+      eUsesRng, eBuildRng, eEpisode, gImport, gRng, gNmne, gCapture, gSimOutput, gPcapLoggers, lState, lStep, h1, h2, h3, h4, h5, h6, h7, hG, hs, hv] <;>
     omega
 
 theorem step_rel (a : Val) (i j : Inst) (G G' : Store) (h : StepRel i j G G') :
@@ -565,7 +565,7 @@ theorem C04_skeleton_scheduled_episode_fresh (seed : Val) (acts : List Val) (i j
 
 /-- non-vacuity: a scheduled instance in its 3rd episode whose scenarios differ in nmne_config, and the constant instance for episode 4 -/
 example : EpisodeMatch (initInst 7 1 0 1 1 1 |> fun i => { i with env := upd i.env eEpisode 3 }) (initInst 11 5 0 1 0 0) := by
-  simp [EpisodeMatch, initInst, upd, eScheduled, eNmneVar, eConfig, eNmneCfg, eIo, eUsesRng, eEpisode]
+  simp [EpisodeMatch, initInst, upd, eScheduled, eNmneVar, eConfig, eNmneCfg, eIo, eUsesRng, eBuildRng, eEpisode]
 
 /-- the same statement for a `from_config` that assigns the NMNE class attributes only when the scenario has a (truthy) nmne_config -/
 def C04_CondWriteEpisodeFresh : Prop :=
@@ -581,7 +581,7 @@ theorem resetProgCond_not_ok : resetOK refClass resetProgCond = false ∧ progOK
 theorem C04_conditional_write_counterexample : ¬ C04_CondWriteEpisodeFresh := by
   intro h
   have := h 3 [1] (initInst 7 0 0 0 0 0) (initInst 7 0 0 0 0 0) (fun g => if g = gNmne then 5 else if g = gCapture then 5 else 0) (fun _ => 0)
-    (by simp [EpisodeMatch, initInst, eScheduled, eNmneVar, eConfig, eNmneCfg, eIo, eUsesRng]) (by simp [gImport, gNmne, gCapture])
+    (by simp [EpisodeMatch, initInst, eScheduled, eNmneVar, eConfig, eNmneCfg, eIo, eUsesRng, eBuildRng]) (by simp [gImport, gNmne, gCapture])
   revert this
   decide
 
@@ -635,7 +635,7 @@ This is why `C04_gen_seed_handling` pins the guard for EVERY argument. -/
 theorem C04_truthy_seed_counterexample : ¬ C04_TruthySeedEpisodeFresh := by
   intro h
   obtain ⟨op, hop, heq⟩ := h 0 [] (initInst 7 0 0 1 0 0) (initInst 7 0 0 1 0 0) (fun g => if g = gRng then 5 else 0) (fun _ => 0)
-    (by simp [EpisodeMatch, initInst, eScheduled, eNmneVar, eConfig, eNmneCfg, eIo, eUsesRng]) (by simp [gImport, gRng])
+    (by simp [EpisodeMatch, initInst, eScheduled, eNmneVar, eConfig, eNmneCfg, eIo, eUsesRng, eBuildRng]) (by simp [gImport, gRng])
   have hop' : op = (resetProgNoSeed, 0) := by
     have : resetCallTruthy (some ((0 : Nat) : Int)) = some (resetProgNoSeed, 0) := by decide
     rw [this] at hop
@@ -650,13 +650,13 @@ theorem reset_noseed_episode_match (a : Val) (i j : Inst) (G G' : Store) (hm : E
     (hR : G gRng = G' gRng) :
     (execProg a resetProgNoSeed i G).2.2 = (execProg a resetProgNoSeed j G').2.2
     ∧ StepRel (execProg a resetProgNoSeed i G).1 (execProg a resetProgNoSeed j G').1 (execProg a resetProgNoSeed i G).2.1 (execProg a resetProgNoSeed j G').2.1 := by
-  obtain ⟨h1, h2, h3, h4, h5, h6⟩ := hm
-  simp only [eScheduled, eNmneVar, eConfig, eNmneCfg, eIo, eUsesRng, eEpisode, gImport, gRng] at h1 h2 h3 h4 h5 h6 hG hR
+  obtain ⟨h1, h2, h3, h4, h5, h6, h7⟩ := hm
+  simp only [eScheduled, eNmneVar, eConfig, eNmneCfg, eIo, eUsesRng, eBuildRng, eEpisode, gImport, gRng] at h1 h2 h3 h4 h5 h6 h7 hG hR
   by_cases hs : i.env 5 = 0 <;> by_cases hv : i.env 6 = 0 <;>
     simp only [hs, hv, ne_eq, not_true_eq_false, not_false_eq_true, if_true, if_false] at h3 h4 <;>
     refine ⟨?_, ?_, ?_, ?_, ?_, ?_⟩ <;>
     simp [resetProgNoSeed, buildGame, scenarioExpr, nmneExpr, execProg, execCmd, eval, upd, eScheduled, eNmneVar, eConfig, eNmneCfg, eIo,
-      eUsesRng, eEpisode, gImport, gRng, gNmne, gCapture, gSimOutput, gPcapLoggers, lState, lStep, h1, h2, h3, h4, h5, h6, hG, hR, hs, hv] <;>
+      eUsesRng, eBuildRng, eEpisode, gImport, gRng, gNmne, gCapture, gSimOutput, gPcapLoggers, lState, lStep, h1, h2, h3, h4, h5, h6, h7, hG, hR, hs, hv] <;>
     omega
 
 theorem C04_unseeded_reset_fresh_modulo_rng (acts : List Val) (i j : Inst) (G G' : Store)
